@@ -164,18 +164,17 @@ def cause_of(ev, p, q, kind, detail=None):
             parts.append("loop-lo-eq-hi")
     if op in ("join_loops", "replace", "std.replace_all", "std.replace_all_stmts", "fuse"):
         parts.append(_body_len_feature(ev, p_ir, blk))
-    if spec and (any(a == "orelse" for a, _ in spec["p"]) or spec.get("attr") == "orelse"):
-        parts.append("target-in-else-branch")
-        try:
-            if p.has_dup():
-                parts.append("source-has-shared-nodes")
-        except Exception:
-            pass
     if op in ("bind_expr", "bind_config") and spec and spec["p"] and spec["p"][-1][0] == "args":
         parts.append("binds-call-argument")
     if op in ("write_config", "bind_config", "delete_config") and spec:
         if _enclosing_loop(p_ir, {"p": list(spec["p"]) + [["x", 0]]}) is not None:
             parts.append("inside-loop")
+    if blk and isinstance(blk[0], LoopIR.For):
+        loop = blk[0]
+        for _, st in irx.all_stmts(type("P", (), {"body": loop.body})):
+            if isinstance(st, LoopIR.Alloc) and any(str(loop.iter) in str(h) for h in st.type.shape()):
+                parts.append("alloc-extent-uses-iter")
+                break
     if op == "divide_with_recompute":
         a = ev.get("a", [])
         if len(a) >= 2 and isinstance(a[1], str) and "/" in a[1]:
@@ -218,3 +217,17 @@ def _body_len_feature(ev, p_ir, blk):
     if blk:
         return f"block-len-{min(len(blk), 3)}"
     return ""
+
+
+def where_of(ev, p):
+    """location tags of the event's first cursor argument (kept apart from the cause)"""
+    spec = _first_spec(ev)
+    tags = []
+    if spec and (any(a == "orelse" for a, _ in spec["p"]) or spec.get("attr") == "orelse"):
+        tags.append("else-branch")
+        try:
+            if p.has_dup():
+                tags.append("shared-nodes")
+        except Exception:
+            pass
+    return ",".join(tags) or "-"
